@@ -58,6 +58,10 @@ the line).
   separately, with the stricter guard `x ≠ max_value ∧ scale k x ≠ max_value` (`noOverflowStrict`).
   Also `Float32.toFloat` as an `OrdHom` from `Float32` to `Float` (no guard).
 
+`HalfAddLaws α ok` (`Lemmas/WeightedMono.lean`, the laws about `+` and `½·` behind the weighted theorems
+of `Props/C01Weighted.lean`, `C12Weighted.lean`, `C14Weighted.lean`): `ok := gMod` (the domain on which
+the theorems trust the laws), and, separately, no guard (`gAll` / `gNotNaN`) — see the last section.
+
 Not sampled (not statements about float values): bundles about an abstract relation `R`
 (`RLaws`, `LWCompat`), about exact fields (`ExactLaws`, `FieldLaws`, `OrderNum`, `BeqExact`), and
 data predicates (`NoNaN`, `InitNoNaN`, `NoNaNRun`; `InfTop`'s quantification over matrix entries is
@@ -886,5 +890,133 @@ def check_Word64_bound (grid : Array Float) : Res := Id.run do
   for x in grid do
     r := r.add (decide (Loc.Word64.toBits x < 2 ^ 64)) fun _ => s!"x={sh x}"
   return r
+
+/-! ## `Lemmas/WeightedMono.lean` (`HalfAddLaws α ok`: what weighted linkage needs of `+` and `½·`)
+
+`ok` is instantiated by a Boolean domain `G`: `gMod` ("moderate": not NaN, `0 ≤ v ≤ 2^(bias/2)` — the
+domain on which the weighted theorems of `Props/C01Weighted.lean` … trust the laws for floats), `gAll`
+(no guard: the law as it would read with `ok := fun _ => True`) and `gNotNaN`.  Expected
+(`MainLaws.lean`): every law holds on `gMod`; without the guard the three monotonicity laws still hold
+(a NaN on either side makes `<` false), `half_double` and the derived `mid_ge` FAIL at
+`t = −max_value` (`t + t = −∞`), `mid_notNaN` fails at `∞ + (−∞)`. -/
+
+section HalfAdd
+variable {α : Type} [Num α] [Sample α]
+
+@[inline] def gNotNaN (v : α) : Bool := !Num.isNaN v
+
+/-- the computed midpoint `½·(a + b)`, i.e. `Gen.weighted a b` -/
+@[inline] def midpoint (a b : α) : α := Num.mul Num.half (Num.add a b)
+
+/-- `add_mono_left : ∀ a b t, ok a → ok b → ok t → lt a t = false → lt (add a b) (add t b) = false` -/
+@[specialize] def check_HalfAddLaws_add_mono_left (G : α → Bool) (grid : Array α) : Res := Id.run do
+  let mut r : Res := {}
+  for a in grid do
+    if G a then
+      for t in grid do
+        if G t && Num.lt a t = false then
+          for b in grid do
+            if G b then
+              r := r.add (Num.lt (Num.add a b) (Num.add t b) == false)
+                fun _ => s!"a={sh a} b={sh b} t={sh t}"
+  return r
+
+/-- `add_mono_right : ∀ a b t, ok a → ok b → ok t → lt b t = false → lt (add a b) (add a t) = false` -/
+@[specialize] def check_HalfAddLaws_add_mono_right (G : α → Bool) (grid : Array α) : Res := Id.run do
+  let mut r : Res := {}
+  for b in grid do
+    if G b then
+      for t in grid do
+        if G t && Num.lt b t = false then
+          for a in grid do
+            if G a then
+              r := r.add (Num.lt (Num.add a b) (Num.add a t) == false)
+                fun _ => s!"a={sh a} b={sh b} t={sh t}"
+  return r
+
+/-- `half_mono : ∀ a b c d, ok a → ok b → ok c → ok d → lt (add a b) (add c d) = false →
+lt (mul half (add a b)) (mul half (add c d)) = false` -/
+@[specialize] def check_HalfAddLaws_half_mono (G : α → Bool) (grid : Array α) : Res := Id.run do
+  let mut r : Res := {}
+  for a in grid do
+    if G a then
+      for b in grid do
+        if G b then
+          let x := Num.add a b
+          for c in grid do
+            if G c then
+              for d in grid do
+                if G d then
+                  let y := Num.add c d
+                  if Num.lt x y = false then
+                    r := r.add (Num.lt (Num.mul Num.half x) (Num.mul Num.half y) == false)
+                      fun _ => s!"a={sh a} b={sh b} c={sh c} d={sh d}"
+  return r
+
+/-- The stronger two-variable form that implies `half_mono` on every domain:
+`∀ x y, lt x y = false → lt (mul half x) (mul half y) = false` (no guard at all). -/
+@[specialize] def check_HalfAddLaws_half_mono_xy (grid : Array α) : Res := Id.run do
+  let mut r : Res := {}
+  for x in grid do
+    for y in grid do
+      if Num.lt x y = false then
+        r := r.add (Num.lt (Num.mul Num.half x) (Num.mul Num.half y) == false)
+          fun _ => s!"x={sh x} y={sh y}"
+  return r
+
+/-- `half_double : ∀ t, ok t → lt (mul half (add t t)) t = false` -/
+@[specialize] def check_HalfAddLaws_half_double (G : α → Bool) (grid : Array α) : Res := Id.run do
+  let mut r : Res := {}
+  for t in grid do
+    if G t then
+      r := r.add (Num.lt (Num.mul Num.half (Num.add t t)) t == false) fun _ => s!"t={sh t}"
+  return r
+
+/-- The exact form behind `half_double` for floats: `mul half (add t t) = t` (same bits). -/
+@[specialize] def check_HalfAddLaws_half_double_exact (G : α → Bool) (grid : Array α) : Res :=
+  Id.run do
+  let mut r : Res := {}
+  for t in grid do
+    if G t then
+      r := r.add (veq (Num.mul Num.half (Num.add t t)) t) fun _ => s!"t={sh t}"
+  return r
+
+/-- `mid_notNaN : ∀ a b, ok a → ok b → isNaN (mul half (add a b)) = false` -/
+@[specialize] def check_HalfAddLaws_mid_notNaN (G : α → Bool) (grid : Array α) : Res := Id.run do
+  let mut r : Res := {}
+  for a in grid do
+    if G a then
+      for b in grid do
+        if G b then
+          r := r.add (Num.isNaN (Num.mul Num.half (Num.add a b)) == false)
+            fun _ => s!"a={sh a} b={sh b}"
+  return r
+
+/-- `mid_ok : ∀ a b, ok a → ok b → ok (mul half (add a b))` -/
+@[specialize] def check_HalfAddLaws_mid_ok (G : α → Bool) (grid : Array α) : Res := Id.run do
+  let mut r : Res := {}
+  for a in grid do
+    if G a then
+      for b in grid do
+        if G b then
+          r := r.add (G (Num.mul Num.half (Num.add a b)))
+            fun _ => s!"a={sh a} b={sh b} mid={sh (midpoint a b)}"
+  return r
+
+/-- The DERIVED law `HalfAddLaws.mid_ge : ∀ a b t, ok a → ok b → ok t → lt a t = false →
+lt b t = false → lt (mul half (add a b)) t = false` (what `ChainReducibleOn.ge` for `.weighted` is). -/
+@[specialize] def check_HalfAddLaws_mid_ge (G : α → Bool) (grid : Array α) : Res := Id.run do
+  let mut r : Res := {}
+  for t in grid do
+    if G t then
+      for a in grid do
+        if G a && Num.lt a t = false then
+          for b in grid do
+            if G b && Num.lt b t = false then
+              r := r.add (Num.lt (Num.mul Num.half (Num.add a b)) t == false)
+                fun _ => s!"a={sh a} b={sh b} t={sh t} mid={sh (midpoint a b)}"
+  return r
+
+end HalfAdd
 
 end Kodama.LawsSample
